@@ -428,6 +428,7 @@ def run(rep, facts, tier):
 
     rule_10_7(rep, fx)
     rule_10_8(rep, fx)
+    rule_10_9(rep, fx)
 
     # ------------------------------------------------------------ R10.6 crossed roles (shared lint, rdv/swaplint.py)
     from rdv import swaplint
@@ -582,3 +583,77 @@ def _plain(t):
     if isinstance(t, tuple) and t and t[0] == 'field' and len(t) > 2:
         return ('field', t[1], _plain(t[2]))
     return t
+
+
+def rule_10_9(rep, fx):
+    """Ownership travels in two parameters (kind, strength). R10.5 decides that both are written and read with the same wire types; this rule decides how the reader of
+    the two puts them together (raised F24; seed C10f)."""
+    from rdv.core import CheckBroken, Origins, Pos, switch_edges, term_str
+    rep.rule('R10.9', 'the Ownership kind decoded is the kind announced: in QosPolicies::from_parameter_list, for every combination of (PID_OWNERSHIP absent | Shared | Exclusive) x '
+                      '(PID_OWNERSHIP_STRENGTH absent | present) the assembled policy is None for an absent kind, Some(Shared) for Shared and Some(Exclusive{..}) for Exclusive - the '
+                      'strength parameter never decides the kind, and a strength that is present with Exclusive is the one stored (6 leaves of the match, found by the edges that '
+                      'dominate each assignment)')
+    b = fx.find('dds::qos::QosPolicies::from_parameter_list')
+    rep.analysed(b)
+    og = Origins(b, summaries=False)
+    P = Pos(b)
+    edges = list(switch_edges(b, fx, og))
+    own = [l for l in b.local_by_name('ownership')]
+    if not own:
+        raise CheckBroken('from_parameter_list: no local named ownership')
+    sites = []
+    for bb, si, st in b.statements():
+        if st['s'] == 'assign' and st['lhs']['l'] in own and not st['lhs'].get('p'):
+            v = og._rvalue(st['rv'], bb, si, 0)
+            sites.append((bb, si, v))
+
+    def kind_of(cond):
+        """which of the three questions a switch asks (by the type inspected and the parameter id it came from)"""
+        if cond[0] != 'discr' or len(cond) < 3:
+            return None
+        ty = strip_generics(str(cond[2]))
+        txt = term_str(cond[1])
+        if 'ControlFlow' in str(cond[2]):
+            return None
+        if str(cond[2]).endswith('OwnershipKind') and 'PID_OWNERSHIP,' in txt.replace('PID_OWNERSHIP_STRENGTH', 'X'):
+            return 'kind'
+        if 'Option<' in str(cond[2]) and 'OwnershipKind' in str(cond[2]):
+            return 'kind_present'
+        if 'Option<i32>' in str(cond[2]) and 'PID_OWNERSHIP_STRENGTH' in txt:
+            return 'strength'
+        return None
+    rows = []
+    for bb, si, v in sites:
+        facts_ = {}
+        for s_, t_, cond, lab in edges:
+            k = kind_of(cond)
+            if k and isinstance(lab, str) and P.can_reach((t_, 0), (bb, si)) and not any(P.can_reach((t2, 0), (bb, si)) for s2, t2, c2, l2 in edges if s2 == s_ and t2 != t_):
+                facts_.setdefault(k, set()).add(lab)
+        rows.append((facts_, v, bb, si))
+    bad = []
+    seen_kinds = set()
+    for facts_, v, bb, si in rows:
+        kp = facts_.get('kind_present', set())
+        kd = facts_.get('kind', set())
+        st_ = facts_.get('strength', set())
+        if v[0] == 'agg' and str(v[1]).endswith('Option::None'):
+            res = 'None'
+        elif v[0] == 'agg' and str(v[1]).endswith('Option::Some') and v[2] and v[2][0][0] == 'agg':
+            res = str(v[2][0][1]).rsplit('::', 1)[-1]
+        elif v[0] == 'call' or v[0] == 'phi':
+            res = '?'
+        else:
+            res = '?'
+        ann = 'absent' if kp == {'None'} else ('Shared' if kd == {'Shared'} else ('Exclusive' if kd == {'Exclusive'} else '?'))
+        seen_kinds.add(ann)
+        want = {'absent': 'None', 'Shared': 'Shared', 'Exclusive': 'Exclusive'}.get(ann)
+        if want is None or res != want:
+            bad.append('announced kind %s, strength %s -> %s' % (ann, '/'.join(sorted(st_)) or 'any', res))
+        if ann == 'Exclusive' and st_ == {'Some'} and res == 'Exclusive':
+            sv = v[2][0][2][0] if v[2][0][2] else None
+            if sv is None or 'PID_OWNERSHIP_STRENGTH' not in term_str(sv):
+                bad.append('Exclusive with a strength present stores %s instead of the announced strength' % (term_str(sv)[:40] if sv else '-'))
+    ok = not bad and seen_kinds >= {'absent', 'Shared', 'Exclusive'} and len(rows) >= 3
+    rep.check(ok, 'R10.9', 'from_parameter_list/ownership-kind', '%d leaves: absent -> None, Shared -> Shared, Exclusive -> Exclusive' % len(rows),
+              'QosPolicies::from_parameter_list does not decode the Ownership kind as announced (%s): a remote endpoint is matched or refused on a kind it did not announce' %
+              ('; '.join(bad[:3]) or 'leaves found for %s only' % sorted(seen_kinds)), b.where(rows[0][2], rows[0][3]) if rows else b.where())
